@@ -177,6 +177,21 @@ def _f(a):
     return np.asarray(a, dtype=np.float64)
 
 
+def set_method(th, method):
+    """The public setter is called only when the method really changes (a setter that invalidates caches must not
+    hide the cached paths from the exploration); the harness keeps its own note of the current method."""
+    if getattr(th, '_c09_method', 'tangent') != method:
+        th.setDrivingForceMethod(method)
+        th._c09_method = method
+
+
+def reset(th):
+    """Start of a history: the configuration of a fresh object (default method) and empty caches, through the
+    public API only."""
+    set_method(th, 'tangent')
+    th.clearCache()
+
+
 def execute(th, db, sym):
     """Runs one query symbol on th.  Returns (parts, mutated_args, label).
     parts = [(name, tolerance class, ndarray)]"""
@@ -191,7 +206,7 @@ def execute(th, db, sym):
     if kind == 'df':
         method, form = p[1], p[2]
         ph = prec_phase(db, p, (int(form[1:]) - 1) % (len(DBS[db]['phases']) - 1) if form.startswith('P') else 0)
-        th.setDrivingForceMethod(method)
+        set_method(th, method)
         x, T, _ = _xT(db, form, args)
         dg, xb = th.getDrivingForce(x, T, precPhase=ph, removeCache=rc)
         ecls = {'tangent': 'energy', 'approximate': 'energy', 'sampling': 'samp', 'curvature': 'curv'}[method]
@@ -325,7 +340,9 @@ def sym_kind(sym):
     if p[0] == 'df':
         return 'df-' + p[1]
     if p[0] == 'ic':
-        return 'ic-' + p[1] + '-' + p[2]
+        # the temperature form selects the code path (one equilibrium for all Gibbs-Thomson energies / one per entry)
+        return 'ic-' + {'T1': 'Tscalar', 'T2': 'Tscalar', 'Tsame': 'Tuniform', 'Tarr': 'Tarray'}[p[1]] + \
+            ('-garray' if p[2] in ('garr', 'grev') else '-gscalar')
     return p[0]
 
 
@@ -369,7 +386,7 @@ def run_history(case):
     db, hist = case['db'], list(case['hist'])
     verbose = os.environ.get('VERIF_REPLAY_VERBOSE')
     th = longlived(db)
-    th.clearCache()
+    reset(th)
     viol = []
     nq = 0
     htxt = ','.join(hist)
@@ -383,6 +400,9 @@ def run_history(case):
             return {'viol': viol, 'states': 1, 'transitions': nq, 'outcome': 'exception'}
     last = hist[-1]
     kind = sym_kind(last)
+    if last.startswith('df|'):
+        set_method(th, last.split('|')[1])      # the switch belongs to the history; the label below describes the
+        #                                         cache the query itself starts from
     label = cache_label(th, db, last)
     sigbase = 'hist/%s/%s/cache=%s' % (db, kind, label)
     ref = reference(db, last)
@@ -399,12 +419,12 @@ def run_history(case):
     except Exception as e:
         viol.append({'sig': sigbase + '/exception', 'msg': '%s: history %s: %s: %s' % (db, htxt, type(e).__name__, e)})
         return {'viol': viol, 'states': 1, 'transitions': nq, 'outcome': 'exception'}
-    for d in compare(db, r1, ref, 'last query vs fresh object'):
-        viol.append({'sig': sigbase + '/differs-from-fresh', 'msg': '%s: history %s: %s' % (db, htxt, d)})
-        break
-    for d in compare(db, r2, r1, 'repeated call vs first call'):
-        viol.append({'sig': sigbase + '/repeat-differs', 'msg': '%s: history %s: %s' % (db, htxt, d)})
-        break
+    d1 = compare(db, r1, ref, 'last query vs fresh object')
+    d2 = compare(db, r2, r1, 'repeated call vs first call')
+    if d1:
+        viol.append({'sig': sigbase + '/differs-from-fresh', 'msg': '%s: history %s: %s' % (db, htxt, d1[0])})
+    elif d2:        # (a history whose answer is already off is reported once)
+        viol.append({'sig': sigbase + '/repeat-differs', 'msg': '%s: history %s: %s' % (db, htxt, d2[0])})
     if r3 is not None and bits(r3) != bits(r2):
         viol.append({'sig': 'hist/%s/%s/repeat-not-bit-identical' % (db, kind),
                      'msg': '%s: history %s: third call differs from second in the last bits (max rel %.2e) although '
@@ -425,7 +445,7 @@ def run_history(case):
 def run_batching(case):
     db, sym, rows = case['db'], case['sym'], case['rows']
     th = longlived(db)
-    th.clearCache()
+    reset(th)
     viol = []
     try:
         parts, mut, kind = execute(th, db, sym)
@@ -439,6 +459,8 @@ def run_batching(case):
         ref = reference(db, rsym)
         got = []
         for (n, c, a), (_, _, b) in zip(parts, ref):
+            if len(rows) == 1 and a.shape == b.shape:
+                a = a.reshape((1,) + a.shape)       # the API squeezes one-point arrays; values are compared
             if a.shape[:1] != (len(rows),):
                 viol.append({'sig': 'batch/%s/%s/shape' % (db, sym_kind(sym)),
                              'msg': '%s %s: %s has shape %r for %d points' % (db, sym, n, a.shape, len(rows))})
@@ -466,8 +488,8 @@ def mixed_alphabet(db, quick):
     a = ['df|tangent|P1|keep', 'df|tangent|P4|keep', 'df|tangent|P2|drop',
          'df|approximate|P1|keep', 'df|approximate|P3|drop', 'df|sampling|P2|keep', 'df|curvature|P4|keep']
     if d['kind'] == 'binary':
-        a += ['ic|T1|g0', 'ic|T2|garr', 'ic|Tarr|grev',
-              'dnkj|P1|keep', 'dnkj|arr3|drop', 'tracer|P3|keep', 'tracer|arr1|drop']
+        a += ['ic|T1|g0', 'ic|T2|garr'] + ([] if quick else ['ic|Tarr|grev'])
+        a += ['dnkj|P1|keep', 'dnkj|arr3|drop', 'tracer|P3|keep', 'tracer|arr1|drop']
     else:
         a += ['curv|P1|keep', 'curv|P3|drop', 'growth|P2|keep', 'imp|P4|keep',
               'dnkj|P1|keep', 'dnkj|arr3|drop', 'tracer|arr1|keep']
@@ -502,7 +524,7 @@ def run_ic_batching(case):
     """Binary interfacial composition: array of Gibbs-Thomson energies vs one call per value."""
     db, sym, rows = case['db'], case['sym'], case['rows']
     th = longlived(db)
-    th.clearCache()
+    reset(th)
     viol = []
     parts, mut, _ = execute(th, db, sym)
     for name, before, after in mut:
@@ -623,7 +645,7 @@ def ht_replay(hist):
 
 def ht_canon(h, model):
     return repr((bool(h._cache) if h._cache is not None else None, int(h.hash_sensitivity),
-                 sorted((int(k), str(v)) for k, v in h.cachedData.items()), model['on'], model['s'],
+                 sorted((repr(k), str(v)) for k, v in h.cachedData.items()), model['on'], model['s'],
                  sorted(model['added'])))
 
 
@@ -646,10 +668,16 @@ def ht_expand(case):
 # ------------------------------------------------------------------------------------------------------
 # SinglePhaseModel with the cache on / off
 
-def _sp_model(therm, tmode, cache, s):
+def _sp_model(therm, tmode, profile, cache, s):
     m = SinglePhaseModel([-1e-3, 1e-3], 6, ['NI', 'CR', 'AL'], ['FCC_A1'], thermodynamics=therm)
-    m.setCompositionLinear(0.05, 0.12, 'CR')
-    m.setCompositionLinear(0.10, 0.04, 'AL')
+    if profile == 'lin':
+        m.setCompositionLinear(0.05, 0.12, 'CR')
+        m.setCompositionLinear(0.10, 0.04, 'AL')
+    else:
+        # V-shaped: cells i and N-1-i have the same composition (to all digits a key can hold) but, with the
+        # temperature gradient, different temperatures
+        m.setCompositionFunction(lambda z: 0.05 + 60.0 * np.abs(z), 'CR')
+        m.setCompositionFunction(lambda z: 0.10 - 50.0 * np.abs(z), 'AL')
     if tmode == 'iso':
         m.setTemperature(1473.15)
     else:
@@ -661,60 +689,78 @@ def _sp_model(therm, tmode, cache, s):
 
 
 def run_singlephase(case):
-    """The same sequence of profiles (each shifted by less than the cache resolution, so that a cache that is
-    still active serves stale entries) is evaluated by a model with the cache switched off and, point by point,
-    directly from the thermodynamics object."""
-    s, tmode, cache = case['s'], case['tmode'], case['cache']
+    """A sequence of profiles, each shifted by less than the cache resolution (so that a cache that is active
+    serves stale entries), is evaluated through the public getFluxes() and, point by point, directly from the
+    thermodynamics object."""
+    s, tmode, profile, cache = case['s'], case['tmode'], case['profile'], case['cache']
     if 'sp' not in _OBJ:
         _OBJ['sp'] = GeneralThermodynamics(datasets.NICRAL_TDB, ['NI', 'CR', 'AL'], ['FCC_A1'])
     therm = _OBJ['sp']
     therm.clearCache()
-    m = _sp_model(therm, tmode, cache, s)
+    m = _sp_model(therm, tmode, profile, cache, s)
     viol = []
     x0 = np.array(m.x, copy=True)
     nsteps = 3
-    delta = 0.3 * 10.0 ** (-s)
+    q = 10.0 ** (-s)
+    delta = 0.3 * q
     states = 0
     worst = 0.0
+    worst_bound = 0.0
+    sig_seen = set()
+
+    def D(x, T):
+        return np.asarray(therm.getInterdiffusivity(x, T, phase='FCC_A1'))
     for k in range(nsteps):
         xk = x0 + k * delta
-        f = np.array(m._getFluxes(0.0, [xk]), copy=True)
+        m.x = np.array(xk, copy=True)
+        f, _ = m.getFluxes()
+        f = np.array(f, copy=True)
         # direct evaluation, no cache anywhere
         T = m.temperatureParameters(m.z, 0.0)
-        d = np.array([therm.getInterdiffusivity(xk[:, i], T[i], phase='FCC_A1') for i in range(m.N)])
-        dmid = (d[1:] + d[:-1]) / 2
+        d = np.array([D(xk[:, i], T[i]) for i in range(m.N)])
         dxdz = (xk[:, 1:] - xk[:, :-1]) / m.dz
         fref = np.zeros_like(f)
         for j in range(m.N - 1):
-            fref[:, j + 1] = -dmid[j] @ dxdz[:, j]
+            fref[:, j + 1] = -((d[j] + d[j + 1]) / 2) @ dxdz[:, j]
         scale = float(np.max(np.abs(fref)))
         err = float(np.max(np.abs(f - fref))) / scale
         worst = max(worst, err)
         states += m.N
         if not cache:
-            # cache off: the model must use the diffusivity of the very composition (same calls, same order: 1e-8
-            # covers the local-equilibrium tolerance, see tol('diff'))
-            if err > 1e-8:
-                viol.append({'sig': 'singlephase/cache-off/stale-diffusivity/%s' % tmode,
-                             'msg': 's=%d %s: flux evaluation %d with useCache(False) differs from the direct evaluation by '
-                                    '%.2e (relative to the largest flux)' % (s, tmode, k, err)})
-                break
-            if len(m.hashTable.cachedData) != 0:
+            # cache off: the model must use the diffusivity of the very composition (same calls in the same order;
+            # 1e-8 is tol('diff'))
+            if err > 1e-8 and 'stale' not in sig_seen:
+                sig_seen.add('stale')
+                viol.append({'sig': 'singlephase/cache-off/stale-diffusivity',
+                             'msg': 's=%d %s %s: flux evaluation %d with useCache(False) differs from the direct evaluation '
+                                    'by %.2e (relative to the largest flux)' % (s, tmode, profile, k, err)})
+            if len(m.hashTable.cachedData) != 0 and 'stored' not in sig_seen:
+                sig_seen.add('stored')
                 viol.append({'sig': 'singlephase/cache-off/entries-stored',
-                             'msg': 's=%d %s: %d entries stored with useCache(False)' % (s, tmode, len(m.hashTable.cachedData))})
-                break
+                             'msg': 's=%d %s %s: %d entries in the table after a flux evaluation with useCache(False)'
+                                    % (s, tmode, profile, len(m.hashTable.cachedData))})
         else:
-            # cache on: a served entry belongs to a composition / temperature within 10^-s per component, so the
-            # flux differs by at most the variation of D over that box.  |dlnD/dx| < 40 and |dlnD/dT| < 0.03/K in this
-            # region (finite differences of the fresh reference, checked below), hence
-            bound = (40.0 * 2 + 0.03) * 10.0 ** (-s) * 4 + 1e-8
-            if err > bound:
-                viol.append({'sig': 'singlephase/cache-on/error-exceeds-quantisation/s=%d/%s' % (s, tmode),
-                             'msg': 's=%d %s: flux evaluation %d with the cache differs from the direct evaluation by %.2e '
-                                    '> %.2e' % (s, tmode, k, err, bound)})
-                break
+            # cache on: an entry may only be served for a composition / temperature within 10^-s per component, so
+            # the flux may differ by at most the variation of D over that box (measured here on the fresh
+            # thermodynamics object at the box faces), times 2 for curvature of D inside the box
+            var = np.zeros_like(d)
+            for i in range(m.N):
+                for step in ([q, 0.0, 0.0], [-q, 0.0, 0.0], [0.0, q, 0.0], [0.0, -q, 0.0], [0.0, 0.0, q], [0.0, 0.0, -q]):
+                    di = D(xk[:, i] + np.array(step[:2]), T[i] + step[2])
+                    var[i] = np.maximum(var[i], np.abs(di - d[i]))
+            var = 3 * var        # three coordinates can be off at the same time
+            fb = np.zeros_like(f)
+            for j in range(m.N - 1):
+                fb[:, j + 1] = ((var[j] + var[j + 1]) / 2) @ np.abs(dxdz[:, j])
+            bound = 2 * float(np.max(fb)) / scale + 1e-8
+            worst_bound = max(worst_bound, bound)
+            if err > bound and 'q' not in sig_seen:
+                sig_seen.add('q')
+                viol.append({'sig': 'singlephase/cache-on/error-exceeds-quantisation/s=%d/T=%s' % (s, tmode),
+                             'msg': 's=%d %s %s: flux evaluation %d with the cache differs from the direct evaluation by %.2e '
+                                    '> %.2e allowed by %d digits' % (s, tmode, profile, k, err, bound, s)})
     return {'viol': viol, 'states': states, 'transitions': nsteps, 'outcome': 'cache=%s' % cache,
-            'info': {'worst_rel_flux_error': worst}}
+            'info': {'worst_rel_flux_error': worst, 'bound': worst_bound}}
 
 
 # ------------------------------------------------------------------------------------------------------
@@ -780,20 +826,21 @@ def run(ctx):
         for m in METHODS:
             for h in histories(df_alphabet(m), depth):
                 hcases.append({'db': db, 'hist': h})
-    ctx.product_run('df-hist', 'checks.c09:run_history', hcases)
+    _summarise(ctx, 'df-hist', ctx.product_run('df-hist', 'checks.c09:run_history', hcases))
     mcases = []
     for db in dbs:
         alpha = mixed_alphabet(db, quick)
         for h in histories(alpha, 3):
             mcases.append({'db': db, 'hist': h})
         if not quick:
-            # depth 4 over the symbols that share caches (driving force / curvature / diffusivity with the cache kept)
-            sub = [s for s in alpha if s == 'clear' or ('keep' in s.split('|'))]
+            # depth 4 over every symbol that reads or writes a cache (the Workspace-based interfacial-composition
+            # queries hold no state and are covered to depth 3 above)
+            sub = [s for s in alpha if not s.startswith('ic')]
             ctx.bounds.setdefault('mixed_depth4_alphabet', {})[db] = sub
             for h in itertools.product(sub, repeat=4):
                 if h[-1] != 'clear':
                     mcases.append({'db': db, 'hist': list(h)})
-    ctx.product_run('mixed-hist', 'checks.c09:run_history', mcases)
+    _summarise(ctx, 'mixed-hist', ctx.product_run('mixed-hist', 'checks.c09:run_history', mcases))
 
     # ---- hash table
     if quick:
@@ -806,9 +853,24 @@ def run(ctx):
     ctx.bfs('hashtable', 'checks.c09:ht_expand', [], hdepth, base=base)
 
     # ---- single phase model
-    spc = [{'s': s, 'tmode': t, 'cache': c} for s in ([3, 4, 7] if quick else [2, 3, 4, 5, 6, 7, 8])
-           for t in ('iso', 'grad') for c in (False, True)]
+    spc = [{'s': s, 'tmode': t, 'profile': pr, 'cache': c} for s in ([3, 4, 7] if quick else [2, 3, 4, 5, 6, 7, 8])
+           for t in ('iso', 'grad') for pr in ('lin', 'vee') for c in (False, True)]
     ctx.product_run('singlephase', 'checks.c09:run_singlephase', spc, chunksize=1)
+
+
+def _summarise(ctx, stage, results):
+    """Largest relative deviation (last answer vs fresh, repeat vs first) among the histories that passed, per
+    kind of query - shows how far the unchanged behaviour is from the tolerances."""
+    worst = {}
+    for r in results:
+        if r.get('viol') or 'info' not in r:
+            continue
+        k = str(r.get('outcome')).split('/')[0]
+        w = worst.setdefault(k, [0.0, 0.0])
+        w[0] = max(w[0], r['info'].get('dev_fresh', 0.0))
+        w[1] = max(w[1], r['info'].get('dev_repeat', 0.0))
+    ctx.extra.setdefault('max_rel_deviation_of_passing_histories', {})[stage] = \
+        {k: {'vs_fresh': v[0], 'repeat': v[1]} for k, v in sorted(worst.items())}
 
 
 def rotate_like(ctx, cases):
